@@ -402,7 +402,7 @@ func checkC15(c *Ctx) {
 	checkExecuteOrdering(c, cmds, pk)
 
 	// ---- R4 sections
-	checkSections(c, pk)
+	checkSections(c, "C15.R4.sections", pk)
 
 	// ---- R5 exit status
 	checkExitStatus(c, "C15.R5.exit-status", pk, cmds)
@@ -812,8 +812,7 @@ func evalCount(info *types.Info, fd *ast.FuncDecl, recv types.Object, e ast.Expr
 // checkSections: in text mode, the section of class K is rendered whenever the list holds a
 // difference of class K. The guards of each reportChanges(K) call (and of the call to
 // ReportCompatibility) are evaluated over every small model (0..3 entries per class).
-func checkSections(c *Ctx, pk *packages.Package) {
-	rule := "C15.R4.sections"
+func checkSections(c *Ctx, rule string, pk *packages.Package) {
 	c.Rule(rule, "text report: for every Compatibility constant K the guards of reportChanges(K) hold in every model of the list with a K entry (models: 0..3 entries per class); the breaking-only report lists Breaking; reportChanges selects on equality", 5)
 	info := pk.TypesInfo
 	type callGuard struct {
